@@ -693,7 +693,7 @@ func runC16(c *Ctx) {
 	for def := ref.Mode(0); def < ref.NumModes; def++ {
 		c.Parallel("fn", def, func(sh *mon.Shard, r *gen.RNG) {
 			j := &transJudge{ctx: c, sh: sh}
-			n := c.N(250, 9000)
+			n := c.N(1000, 12000)
 			if def != ref.NearestEven {
 				n /= 3
 			}
